@@ -104,7 +104,7 @@ func runCheck(id, tier, repo string) (code int) {
 		r.Assume("single build configuration linux/amd64 (the only one that builds); int is 64 bit",
 			"test files, package main tools and //go:build ignore generators are out of scope")
 		pd.fn(p, r)
-		if tier == "thorough" {
+		if tier == "thorough" && os.Getenv("IMVERIF_NO_SELFTEST") == "" {
 			selfTest(r, id, repo)
 		}
 	}()
